@@ -266,6 +266,70 @@ func runC16(c *Ctx) {
 		}
 		c.Floor("C16.fail/dial-failure-paths", nFail, 1)
 		c.Floor("C16.fail/dial-success-paths", nOK, 1)
+		// ---- a connection the dialer produced is never dropped
+		c.Rule("C16.dial-result", "dial, in the scenario 'the dialer returned no error': on every path the connection it returned is published in c.c or closed - it is never dropped on the floor by a later decision (cancelled context, ...) to treat the attempt as failed, which would leave an open connection that no holder can release")
+		{
+			isDialCall := func(v ssa.Value) *ssa.Call {
+				call, ok := v.(*ssa.Call)
+				if ok && !call.Call.IsInvoke() && staticCallee(&call.Call) == nil && isNamed(call.Call.Value.Type(), "connection", "Dial") {
+					return call
+				}
+				return nil
+			}
+			e := &PPA{Watch: func(ev *Ev) bool {
+				return ev.Label == "store:connection.connection.c" || strings.HasPrefix(ev.Label, "call:dyn:") || ev.Label == "call:(*google.golang.org/grpc.ClientConn).Close"
+			}, Cond: func(e *PPA, st *State, rv RV) (bool, bool) {
+				r := e.Resolve(st, rv)
+				b, ok := r.V.(*ssa.BinOp)
+				if !ok || (b.Op != token.EQL && b.Op != token.NEQ) {
+					return false, false
+				}
+				for _, pr := range [][2]ssa.Value{{b.X, b.Y}, {b.Y, b.X}} {
+					if !isNilConst(pr[1]) {
+						continue
+					}
+					x := e.Resolve(st, RV{r.F, pr[0]})
+					if ex, ok := x.V.(*ssa.Extract); ok && ex.Index == 1 && isDialCall(ex.Tuple) != nil {
+						return b.Op == token.EQL, true // the dialer's error is nil
+					}
+				}
+				return false, false
+			}}
+			e.Run(dial)
+			c.Paths += len(e.Paths)
+			c.Scen++
+			n := 0
+			for i := range e.Paths {
+				p := &e.Paths[i]
+				di := -1
+				for j := range p.Trace {
+					if ci, ok := p.Trace[j].In.(*ssa.Call); ok && isDialCall(ci) != nil {
+						di = j
+					}
+				}
+				if di < 0 {
+					continue // no dialer of that name: nothing was dialled
+				}
+				n++
+				dc := p.Trace[di].In.(*ssa.Call)
+				kept := false
+				for j := di + 1; j < len(p.Trace); j++ {
+					ev := &p.Trace[j]
+					if ev.Label == "store:connection.connection.c" && len(ev.Args) >= 2 {
+						if ex, ok := ev.Args[1].V.(*ssa.Extract); ok && ex.Index == 0 && ex.Tuple == ssa.Value(dc) {
+							kept = true
+						}
+					}
+					if ev.Label == "call:(*google.golang.org/grpc.ClientConn).Close" && len(ev.Args) >= 1 {
+						if ex, ok := ev.Args[0].V.(*ssa.Extract); ok && ex.Index == 0 && ex.Tuple == ssa.Value(dc) {
+							kept = true
+						}
+					}
+				}
+				c.Check(kept, "C16.dial-result", fnName(dial), "dialer succeeded: its connection is published or closed", P.Pos(dc.Pos()), "path: "+p.String())
+			}
+			c.Floor("C16.dial-result/paths", n, 1)
+		}
 		// Connection's return values
 		for _, hasErr := range []bool{true, false} {
 			at := &Atoms{
@@ -475,8 +539,8 @@ func runC16(c *Ctx) {
 			}
 		}
 		c.Floor("C16.close-owner/close-sites", nClose, 1)
-		e := &PPA{Watch: func(ev *Ev) bool {
-			return ev.Label == "builtin:delete" || strings.Contains(ev.Label, "ClientConn).Close")
+		e := &PPA{TraceBranches: true, Watch: func(ev *Ev) bool {
+			return ev.Label == "builtin:delete" || strings.Contains(ev.Label, "ClientConn).Close") || ev.Label == "if"
 		}}
 		e.Run(remove)
 		c.Analysed(fnName(remove))
@@ -486,6 +550,22 @@ func runC16(c *Ctx) {
 			d := p.Index(0, lbl("builtin:delete"))
 			okDel := d >= 0 && len(p.Trace[d].Args) == 2 && loadOfField(p.Trace[d].Args[0].V, fConns)
 			nc := p.Count(lblContains("ClientConn).Close"))
+			// a path on which the lookup reported "no such entry" has nothing to forget (and must close nothing)
+			absent := false
+			for j := range p.Trace {
+				ev := &p.Trace[j]
+				if ev.Label != "if" || len(ev.Args) == 0 {
+					continue
+				}
+				if ex, ok := ev.Args[0].V.(*ssa.Extract); ok && ex.Index == 1 {
+					if lk, ok := ex.Tuple.(*ssa.Lookup); ok && loadOfField(lk.X, fConns) && !ev.Taken {
+						absent = true
+					}
+				}
+			}
+			if absent && nc == 0 {
+				okDel = true
+			}
 			c.Check(okDel && nc <= 1, "C16.close-owner", fnName(remove), "forgets the entry on every path, closes at most once", P.Pos(remove.Pos()), fmt.Sprintf("delete(conns,…)=%v closes=%d; path: %s", okDel, nc, p.String()))
 		}
 	}
@@ -540,6 +620,216 @@ func runC16(c *Ctx) {
 			c.Floor(fmt.Sprintf("C16.mgr-pairing/paths(fail=%v)", fail), n, 1)
 		}
 	}
+	holderPairing(c, "C16.holder-pairing")
+	// ---- one key per entry
+	c.Rule("C16.key-agree", "an entry is cached, identified and forgotten under one key: on every path of Connection that creates an entry (helpers entered) the key of the lookup, the key of the store into Manager.conns, the value stored into the new entry's id and the operand that `go dial` hands over for dial's own remove(...) are the same value; dial (helpers entered) removes under that parameter or under the entry's id; every other remove(...) is given an entry's id (an entry removed under another key stays cached: a failed dial is then handed to every later requester, a released connection is never closed)")
+	{
+		fID := P.Field("connection", "connection", "id")
+		if fID == nil || Conn == nil || dial == nil || remove == nil {
+			c.Unresolved("C16.key-agree", "connection.connection.id / Connection / dial / remove")
+			return
+		}
+		inPkg := func(fr *Frame, call ssa.CallInstruction, callee *ssa.Function) bool {
+			return pkgPathOf(callee) == pkgPathOf(Conn) && callee != remove && callee != dial && callee != Conn
+		}
+		// which operand of dial is the remove key
+		keyParam := -1 // reference index among dial's parameters (receiver = 0)
+		{
+			e := &PPA{Inline: inPkg, Watch: func(ev *Ev) bool { return ev.Label == "call:"+fnName(remove) }}
+			e.Run(dial)
+			c.Paths += len(e.Paths)
+			n := 0
+			for i := range e.Paths {
+				p := &e.Paths[i]
+				for j := range p.Trace {
+					ev := &p.Trace[j]
+					if len(ev.Args) < 2 {
+						continue
+					}
+					n++
+					key := ev.Args[1]
+					okKey, why := false, "key is "+Expr(key.V)
+					if u, isU := key.V.(*ssa.UnOp); isU && u.Op == token.MUL && fieldOf(u.X) == fID {
+						okKey, why = true, "the entry's own id"
+					}
+					if pp, isP := key.V.(*ssa.Parameter); isP && pp.Parent() == dial {
+						for k := 0; k < len(dial.Params); k++ {
+							if param(dial, k) == pp {
+								keyParam = k
+								okKey, why = true, "dial's parameter "+pp.Name()
+							}
+						}
+					}
+					c.Check(okKey, "C16.key-agree", fnName(dial), "dial removes under its key parameter or the entry's id", P.Pos(posOf(ev.In)), why)
+				}
+			}
+			c.Floor("C16.key-agree/dial-remove", n, 1)
+		}
+		// Connection: lookup key = store key = id = what dial is started with
+		{
+			e := &PPA{Inline: inPkg, TraceLookups: true, Watch: func(ev *Ev) bool {
+				return (strings.HasPrefix(ev.Label, "lookup:") && ev.Field == fConns) || (strings.HasPrefix(ev.Label, "mapupdate:") && ev.Field == fConns) ||
+					ev.Label == "store:connection.connection.id" || ev.Label == "go:"+fnName(dial)
+			}}
+			e.Run(Conn)
+			c.Paths += len(e.Paths)
+			n := 0
+			for i := range e.Paths {
+				p := &e.Paths[i]
+				si := p.Index(0, func(ev *Ev) bool { return strings.HasPrefix(ev.Label, "mapupdate:") })
+				if si < 0 || len(p.Trace[si].Args) < 2 {
+					continue
+				}
+				n++
+				key := p.Trace[si].Args[1]
+				li := p.Index(0, func(ev *Ev) bool { return strings.HasPrefix(ev.Label, "lookup:") })
+				okL := li >= 0 && li < si && len(p.Trace[li].Args) >= 2 && p.Trace[li].Args[1] == key
+				c.Check(okL, "C16.key-agree", fnName(Conn), "lookup and store use the same key", P.Pos(Conn.Pos()), "path: "+p.String())
+				ii := p.Index(0, lbl("store:connection.connection.id"))
+				okI := ii >= 0 && len(p.Trace[ii].Args) >= 2 && p.Trace[ii].Args[1] == key
+				c.Check(okI, "C16.key-agree", fnName(Conn), "the new entry's id is the key it is stored under", P.Pos(Conn.Pos()), "path: "+p.String())
+				gi := p.Index(0, lbl("go:"+fnName(dial)))
+				okG := gi >= 0
+				if okG && keyParam >= 0 {
+					okG = keyParam < len(p.Trace[gi].Args) && p.Trace[gi].Args[keyParam] == key
+				}
+				c.Check(okG, "C16.key-agree", fnName(Conn), "dial is started with the key the entry is stored under", P.Pos(Conn.Pos()), fmt.Sprintf("remove key of dial = reference parameter %d; path: %s", keyParam, p.String()))
+			}
+			c.Floor("C16.key-agree/create-paths", n, 1)
+		}
+		// every other remove(...): the entry's id
+		for _, f := range P.PkgFuncs("connection") {
+			if P.InTestFile(f) || onlyFrom(P, f, dial, 0) || f == dial {
+				continue
+			}
+			for _, g := range withAnon(f) {
+				if onlyFrom(P, g, dial, 0) {
+					continue
+				}
+				for _, ci := range callsIn(g) {
+					if staticCallee(ci.Common()) != remove {
+						continue
+					}
+					args := refArgs(ci.Common())
+					if len(args) < 2 {
+						continue
+					}
+					key := unwrap(args[1])
+					u, isU := key.(*ssa.UnOp)
+					c.Check(isU && u.Op == token.MUL && fieldOf(u.X) == fID, "C16.key-agree", fnName(g), "a release removes under the entry's id", P.Pos(ci.Pos()), "key is "+Expr(key))
+				}
+			}
+		}
+	}
+}
+
+// holderPairing: every holder inside the module (non-test functions outside package connection that
+// ask a connection manager for a connection) accounts for each reference it was given: in the
+// scenario 'the request succeeded', the release function of that request is returned to the caller,
+// called or deferred before the holder asks again or returns.  A reference that is overwritten by the
+// next request keeps the shared connection open for ever ("when the last holder releases it, it is
+// closed" never happens) and hands the stale connection to every later requester.
+func holderPairing(c *Ctx, rule string) {
+	P := c.P
+	c.Rule(rule, "every non-test function of the module outside package connection that requests a connection (ConnectionManager.Connection / (*connection.Manager).Connection), replayed with every request succeeding and up to three requests in a loop: the release function of each request is returned, called or deferred before the next request and before the function returns - no reference is dropped by asking again")
+	isConn := func(ci ssa.CallInstruction) bool {
+		cc := ci.Common()
+		if cc.IsInvoke() {
+			return cc.Method.Name() == "Connection" && cc.Signature().Results().Len() == 3
+		}
+		return calleeName(cc) == "(*connection.Manager).Connection"
+	}
+	holders := 0
+	for _, pk := range P.ModPkgs() {
+		if pk == "connection" || strings.HasSuffix(pk, "/connection") {
+			continue
+		}
+		for _, top := range P.PkgFuncs(pk) {
+			if P.InTestFile(top) || P.IsGenerated(top) || top.Parent() != nil {
+				continue
+			}
+			has := false
+			for _, ci := range callsIn(top) {
+				if isConn(ci) {
+					has = true
+				}
+			}
+			if !has {
+				continue
+			}
+			holders++
+			c.Analysed(fnName(top))
+			isReq := func(ev *Ev) bool {
+				ci, ok := ev.In.(ssa.CallInstruction)
+				return ok && strings.HasPrefix(ev.Label, "call:") && isConn(ci)
+			}
+			e := &PPA{MaxVisits: 3, Watch: func(ev *Ev) bool {
+				return isReq(ev) || strings.HasPrefix(ev.Label, "call:dyn:") || (ev.Deferred && ev.Fn.V != nil)
+			}, Cond: func(e *PPA, st *State, rv RV) (bool, bool) {
+				r := e.Resolve(st, rv)
+				b, ok := r.V.(*ssa.BinOp)
+				if !ok || (b.Op != token.EQL && b.Op != token.NEQ) {
+					return false, false
+				}
+				for _, pr := range [][2]ssa.Value{{b.X, b.Y}, {b.Y, b.X}} {
+					if !isNilConst(pr[1]) {
+						continue
+					}
+					x := e.Resolve(st, RV{r.F, pr[0]})
+					if ex, ok := x.V.(*ssa.Extract); ok && ex.Index == 2 {
+						if call, ok := ex.Tuple.(*ssa.Call); ok && isConn(call) {
+							return b.Op == token.EQL, true // the request succeeded
+						}
+					}
+				}
+				return false, false
+			}}
+			e.Run(top)
+			c.Paths += len(e.Paths)
+			c.Scen++
+			n := 0
+			for i := range e.Paths {
+				p := &e.Paths[i]
+				if p.End != "return" {
+					continue
+				}
+				for j := range p.Trace {
+					if !isReq(&p.Trace[j]) {
+						continue
+					}
+					n++
+					call, _ := p.Trace[j].In.(*ssa.Call)
+					isDone := func(v ssa.Value) bool {
+						ex, ok := v.(*ssa.Extract)
+						return ok && ex.Index == 1 && call != nil && ex.Tuple == ssa.Value(call)
+					}
+					accounted := false
+					for k := j + 1; k < len(p.Trace) && !isReq(&p.Trace[k]); k++ {
+						if p.Trace[k].Fn.V != nil && isDone(p.Trace[k].Fn.V) {
+							accounted = true // called or deferred
+						}
+					}
+					// handed to the caller: only the last request's release can be what is returned
+					last := true
+					for k := j + 1; k < len(p.Trace); k++ {
+						if isReq(&p.Trace[k]) {
+							last = false
+						}
+					}
+					if last {
+						for _, r := range p.Rets {
+							if isDone(r.V) {
+								accounted = true
+							}
+						}
+					}
+					c.Check(accounted, rule, fnName(top), "the reference of a successful request is released or handed on before the next request / return", P.Pos(posOf(p.Trace[j].In)), "path: "+p.String())
+				}
+			}
+			c.Floor(rule+"/"+fnName(top), n, 1)
+		}
+	}
+	c.Floor(rule+"/holders", holders, 1)
 }
 
 func emptyBody(f *ssa.Function) bool {
